@@ -62,6 +62,8 @@ class Sub:
     what: str = ""
     max_rounds: int = 3  # re-run after a violation, excluding found signatures, to enumerate root causes
     single_shard: bool = False  # custom subs that parallelise internally / are cheap
+    min_per_shard: int = 4  # a sub with few cases runs on fewer shards (Hypothesis' first examples are the simplest ones)
+    shrink_calls: int = 150  # oracle executions granted to the shrinker after the first failure (then new candidates are waved through)
 
 
 def canon(case: Any) -> str:
@@ -209,10 +211,15 @@ class Ctx:
 
     # ---------------------------------------------------------------- hypothesis driver
     def n_for(self, sub: Sub) -> int:
+        """Cases this shard runs for sub (0 = this shard skips the sub)."""
         n = sub.n[self.tier]
         scale = float(os.environ.get("VERIF_SCALE", "1") or 1)
         n = max(1, int(n * scale))
-        return max(1, math.ceil(n / self.nshards))
+        eff = max(1, min(self.nshards, n // max(1, sub.min_per_shard)))
+        off = int(hashlib.sha1(sub.name.encode()).hexdigest()[:4], 16) % self.nshards  # spread small subs over different shards
+        if (self.shard - off) % self.nshards >= eff:
+            return 0
+        return max(1, math.ceil(n / eff))
 
     def hseed(self, sub: Sub, rnd: int = 0) -> int:
         h = int(hashlib.sha1(f"{self.pid}/{sub.name}".encode()).hexdigest()[:6], 16)
@@ -223,11 +230,16 @@ class Ctx:
         from hypothesis import HealthCheck, Phase, given, settings
 
         n = self.n_for(sub)
-        for rnd in range(sub.max_rounds):
-            last: dict = {}
+        if n == 0:
+            return
+        rounds = int(os.environ.get("VERIF_MAX_ROUNDS", "0") or 0) or sub.max_rounds
+        for rnd in range(rounds):
+            last: dict = {"after": 0}
+            failed: dict = {}
             ctx = self
 
-            phases = [Phase.generate] + ([Phase.shrink] if sub.shrink[self.tier] else [])
+            do_shrink = sub.shrink[self.tier] and os.environ.get("VERIF_SHRINK", "1") != "0"
+            phases = [Phase.generate] + ([Phase.shrink] if do_shrink else [])
 
             @hypothesis.seed(self.hseed(sub, rnd))
             @settings(max_examples=n, database=None, deadline=None, derandomize=False, report_multiple_bugs=False,
@@ -237,13 +249,21 @@ class Ctx:
                 if ctx.over_budget():
                     ctx._st(sub.name)["skipped"] += 1
                     return
+                d = digest(case)
+                if d in failed:
+                    last["case"] = case
+                    raise failed[d]
+                if failed and last["after"] >= sub.shrink_calls:
+                    return  # shrink budget used up: unseen candidates are not executed (cached failures still fail)
                 last["case"] = case
-                last["v"] = None
                 try:
                     ctx.run_case(sub, case, reraise=True)
                 except Violation as v:
-                    last["v"] = v
+                    failed[d] = v
                     raise
+                finally:
+                    if failed:
+                        last["after"] += 1
 
             try:
                 t()
